@@ -21,3 +21,8 @@ for crate in (fb.lib, fb.macros):
     tab[crate.name] = earlyexit.census(crate, [n for n in names if n in crate.fns or n in crate.closures])
 json.dump(tab, open(earlyexit.TABLE, 'w'), indent=1, sort_keys=True)
 print({k: len(v) for k, v in tab.items()}, sum(sum(c.values()) for v in tab.values() for c in v.values()), 'exits')
+# the function paths of this tree (rules/sym.py new_helper: a private function not in this list is a helper
+# extracted later, and the `helpers` normal-form pass reads it as part of its caller)
+known = sorted(set(fb.lib.fns) | set(fb.macros.fns if fb.macros else []))
+json.dump(known, open(os.path.join(VERIF, 'props', 'known_fns.json'), 'w'), indent=0)
+print(len(known), 'known functions')
